@@ -57,7 +57,25 @@ def run(ck, a):
     tr, te, r, v = (core.reals(n, (T, B)) for n in ('tr', 'te', 'r', 'v'))
     b, lam, gam = core.reals('b', (B,)), core.reals('lam'), core.reals('gam')
     args = (tr, te, r, v, b, lam, gam)
-    (vs, adv), cj = core.run(ctx, f, *args)
+    # PPO passes lambda and discount as PYTHON floats (closed over, not traced): the endpoints of the quantifier's ranges are decided in that calling
+    # convention too (T <= 3): value-dependent Python control flow on the hyper-parameters (`x or default`, `if not lam`) only shows there
+    if T <= 3 and B <= 2:
+      for lamf, gamf in ((0.0, 0.99), (1.0, 1.0), (0.0, 0.0), (1.0, 0.0), (0.95, 0.99)):
+        ctxf = core.Ctx()
+        try:
+          (vsf, advf), cjf = core.run(ctxf, lambda tr_, te_, r_, v_, b_: losses.compute_gae(tr_, te_, r_, v_, b_, lamf, gamf), tr, te, r, v, b)
+        except Exception as ex:
+          ck.harness_error('compute_gae with Python-float hyper-parameters (lambda=%r, discount=%r): %r' % (lamf, gamf, ex))
+          continue
+        lq, gq = core.num(lamf), core.num(gamf)
+        rvsf, radvf = reference(T, B, tr, te, r, v, b, lq, gq)
+        goalf = z3.And([lift(vsf[t, j]) == rvsf[t, j] for t in range(T) for j in range(B)] + [lift(advf[t, j]) == radvf[t, j] for t in range(T) for j in range(B)])
+        ck.add(Ob('gae-float-hyperparameters/T=%d/B=%d/lambda=%r/discount=%r' % (T, B, lamf, gamf), ctxf.side, goalf, timeout=60, meta={'T': T, 'B': B, 'lam': lamf, 'gam': gamf}))
+    try:
+      (vs, adv), cj = core.run(ctx, f, *args)
+    except jax.errors.TracerBoolConversionError as ex:
+      ck.harness_error('compute_gae cannot be traced with symbolic lambda / discount (value-dependent Python control flow on a hyper-parameter): %s' % str(ex)[:200])
+      continue
     ck.traced('ppo.losses.compute_gae', cj)
     if T in (1, 3, max(Ts)) and B in (1, 2):
       ck.validated += validate.validate(ctx, f, args, (vs, adv), n=5, seed=ck.seed + T * 7 + B)
@@ -112,7 +130,7 @@ def run(ck, a):
     arr = lambda n, shp: np.array([[val('%s_%d_%d' % (n, t, j)) for j in range(shp[1])] for t in range(shp[0])])
     tr, te, r, v = (arr(n, (T, B)) for n in ('tr', 'te', 'r', 'v'))
     b = np.array([val('b_%d' % j) for j in range(B)])
-    lam, gam = val('lam'), val('gam')
+    lam, gam = (ob.meta['lam'], ob.meta['gam']) if 'lam' in ob.meta else (val('lam'), val('gam'))
     o1, o2 = losses.compute_gae(jp.array(tr), jp.array(te), jp.array(r), jp.array(v), jp.array(b), lam, gam)
     r1, r2 = reference(T, B, tr, te, r, v, b, lam, gam)
     ok = np.allclose(np.asarray(o1), r1.astype(float), atol=1e-9, rtol=1e-9) and np.allclose(np.asarray(o2), r2.astype(float), atol=1e-9, rtol=1e-9)
@@ -121,6 +139,7 @@ def run(ck, a):
                       'observed': [np.asarray(o1).tolist(), np.asarray(o2).tolist()],
                       'expected': [r1.astype(float).tolist(), r2.astype(float).tolist()]}
   ck.replayers['gae/'] = replay
+  ck.replayers['gae-float-hyperparameters/'] = replay
   ck.replayers['column-independence/'] = lambda ob: (True, {'note': 'two-copy model', 'model': ob.model})
   ck.replayers['no-gradient/'] = lambda ob: (True, {'note': 'non-zero gradient term', 'model': ob.model})
   ck.discharge()
